@@ -235,7 +235,7 @@ impl Property for C05 {
         "C05"
     }
     fn rule(&self) -> String {
-        "Histories of 1-12 generated ops (append, overwrite, delete, update, compaction, scalar index create/drop/optimize, add/drop/alter column, config update, restore, tags, reopen; 15% run on a stale handle checked out at one of the last 3 versions with retries off) on a generated table (1-4 typed columns, storage 2.0/2.1/2.2, stable row ids on/off, V1/V2 manifest names, conditional-put or rename commit handler). After every commit the invariant bundle runs on the new version and on a sampled older version. Non-trivial = history contains a committed alter/drop column, compaction, restore or rebased commit; distinct by op-kind sequence.".into()
+        "Histories of 1-12 generated ops (append, overwrite, delete, update, compaction, scalar index create/drop/optimize, add/drop/alter column, config update, restore, tags, reopen; 15% run on a stale handle checked out at one of the last 4 versions with retries off) on a generated table (1-4 typed columns, storage 2.0/2.1/2.2, stable row ids on/off, V1/V2 manifest names, conditional-put or rename commit handler). After every commit the invariant bundle runs on the new version and on a sampled older version. Non-trivial = history contains a committed alter/drop column, compaction, restore or rebased commit; distinct by op-kind sequence.".into()
     }
     fn assumptions(&self) -> Vec<String> {
         vec!["the in-memory store is linearisable and never loses acknowledged writes".into()]
